@@ -110,14 +110,23 @@ def gen_op(rng, w):
     return G3.gen_op(rng, w, False)
 
 
-def new_bar(rng, w):
+def new_bar(rng, w, spec=None):
+    """the next bar's status row.  Rows built by load_uni_v3_data carry the PREVIOUS bar's close as `price` (what deposits, withdrawals and the
+    valuation use) and this bar's close as `closeTick` (what the fee accrual uses): `lag` rows keep that shape, so price and closeTick may sit on
+    different sides of a range bound; `same` rows (hand-built frames) have both at the new tick; `quiet` bars repeat the previous row's price"""
     sp = w.pool.tick_spacing
-    t = w.tick + rng.randint(-60, 60) * sp // 2
-    w.tick = t
-    w.price = w.market.tick_to_price(t)
-    w.set_status(t, w.price, Decimal(rng.randint(10 ** 12, 10 ** 24)), Decimal(rng.randint(0, 10 ** 22)), Decimal(rng.randint(0, 10 ** 22)))
+    if spec is None:
+        mode = rng.choice(("same", "same", "lag", "lag", "quiet"))
+        close = getattr(w, "close", w.tick)
+        t = close if mode == "quiet" else close + rng.randint(-60, 60) * sp // 2
+        spec = {"mode": mode, "tick": (close if mode in ("lag", "quiet") else t), "close": t, "liq": str(rng.randint(10 ** 12, 10 ** 24)),
+                "in0": str(rng.randint(0, 10 ** 22)), "in1": str(rng.randint(0, 10 ** 22))}
+    w.tick, w.close = spec["tick"], spec["close"]
+    w.price = w.market.tick_to_price(w.tick)
+    w.set_status(w.close, w.price, Decimal(spec["liq"]), Decimal(spec["in0"]), Decimal(spec["in1"]))
     with U.guard("update"):
         w.market.update()
+    return spec
 
 
 def run(ctx: Ctx):
@@ -132,8 +141,7 @@ def run(ctx: Ctx):
         for _ in range(rng.randint(1, 10)):
             op, cls = gen_op(rng, w)
             if op["op"] == "bar":
-                new_bar(rng, w)
-                opj = {"op": "bar", "tick": w.tick}
+                opj = dict(new_bar(rng, w), op="bar")
             else:
                 op = U.fill_oracles(w, op)
                 U.apply_op(w, op)
@@ -173,7 +181,7 @@ def replay(ctx: Ctx, case) -> bool:
     DEC = ("a0", "a1", "base", "quote", "amount", "price", "value", "max0", "max1", "lower_price", "upper_price")
     for opj in case["ops"]:
         if opj["op"] == "bar":
-            new_bar(rng, w)
+            new_bar(rng, w, opj if "close" in opj else None)
         else:
             op = {k: (Decimal(v) if k in DEC and v is not None else v) for k, v in opj.items() if k not in ("lt", "ut", "tick_est", "ratio_amt")}
             U.apply_op(w, U.fill_oracles(w, op))
